@@ -862,6 +862,24 @@ func (h *histRun) execIter(o hop, opIdx int, ob *obsRaw) {
 		return
 	}
 	ob.HasIter = true
+	// "reports unknown upper bounds as errors": every inclusive bound, and the exclusive bound in force
+	// (an amount of zero asks for nothing and is answered before the bounds are looked at: theorem
+	// C15_amount_zero; C15_unknown_upper_bound_is_error is stated for every other amount)
+	if sp.Amount == nil || *sp.Amount != 0 {
+		var ub []cid.Cid
+		if sp.HasLTE {
+			ub = opts.LTE
+		} else if sp.HasLT && len(opts.LT) > 0 {
+			ub = opts.LT[len(opts.LT)-1:]
+		}
+		for i, c := range ub {
+			if _, held := l.Get(c); !held {
+				h.fail("C15", "unknown-upper-bound-is-an-error", "C15:unknown-upper-bound-accepted",
+					fmt.Sprintf("upper bound #%d of %d (%s) is not an entry of the log, yet Iterator returned no error", i+1, len(ub), c), opIdx)
+				break
+			}
+		}
+	}
 	var got []iface.IPFSLogEntry
 	closed := false
 loop:
